@@ -6,6 +6,16 @@ VERIF = os.path.dirname(os.path.dirname(os.path.abspath(__file__)))
 
 # id -> (category, technique, level text, level note, design ref)
 CLAIMED = {
+    "C01": ("exploration",
+            "stateful property-based testing (rapid): branching operation histories over a pool of live meshes with a bit-exact snapshot invariant after every step",
+            "Generated histories (up to 40 steps, <= 8 live meshes) of ~55 public operations (Mesh methods, meshops, repeat, primitives, PLY/OBJ/glTF/STL writers) applied to drawn pool members, so several derivations branch off one base; after every step every live mesh is re-read through the accessors and compared bit for bit with the snapshot taken when it was obtained. Shrinks to a 5-step history for the Append defect. Sampling level (10^4..10^6 histories), not a proof.",
+            "Trusted: oracle.Snapshot reads everything a mesh reports; operations that panic are no-ops for this property; aliasing needing > 40 steps or > 8 live values is out of reach.",
+            "DESIGN.md §4 C01"),
+    "C03": ("exploration",
+            "property-based testing (rapid): generated meshes x 33 operations against reference implementations over per-corner attribute tuples (bit-exact) and float64 maps",
+            "Every layout operation is compared with a reference written from its contract over per-corner attribute tuples (exact by bit pattern, weld: first vertex of the rounding cell), every attribute transform with the stated per-vertex map plus 'indices, topology, materials and all other attributes bit-identical'; generator constructs non-identity indices, shared/duplicated/unreferenced vertices and mixed attribute arities. Sampling level.",
+            "Trusted: the reference implementations in harness/c03. Filters/crop only on point topology; don't-care band around minArea; undefined normals not compared.",
+            "DESIGN.md §4 C03"),
     "C17": ("exploration",
             "property-based testing (rapid): generated operands vs loop-written reference formulas; exhaustive basis-matrix enumeration",
             "Generated-input search over vectors, axes, angles, quaternion products, direction pairs (incl. exactly/nearly (anti)parallel), 4x4 matrices, TRS triples and boxes against independent reference formulas (Rodrigues rotation, row-by-column product, elimination determinant, clamp); Add/Multiply are additionally decided exhaustively on all 256 basis-matrix pairs, which settles entry placement for (bi)linear maps. Sampling level: shows absence of violations on ~10^5 (quick) / ~10^6+ (thorough) generated cases, not a proof.",
